@@ -11,6 +11,7 @@ from liquid.ast import Node
 from liquid.builtin.expressions import FilteredExpression
 from liquid.builtin.expressions import Identifier
 from liquid.builtin.expressions import parse_identifier
+from liquid.builtin.expressions import quote_identifier
 from liquid.tag import Tag
 from liquid.token import TOKEN_ASSIGN
 from liquid.token import TOKEN_TAG
@@ -36,7 +37,7 @@ class AssignNode(Node):
         self.expression = expression
 
     def __str__(self) -> str:
-        return f"{{% assign {self.name} = {self.expression} %}}"
+        return f"{{% assign {quote_identifier(self.name)} = {self.expression} %}}"
 
     def render_to_output(self, context: RenderContext, _: TextIO) -> int:
         """Render the node to the output buffer."""
